@@ -11,8 +11,21 @@ A, B, C = ('str', 'a'), ('str', 'b'), ('str', 'c')
 BASE = [
     ('start', ('rule', None, ('star', ('choice', ('ref', 'X'), ('ref', 'Y'))))),
     ('X', ('rule', None, A)),
-    ('Y', ('class', None, [('y', False, ('seq', B, ('ref', 'X')))])),
+    ('Y', ('class', None, [('y', False, ('call', 'T', [B], []))])),
+    ('T', ('rule', ['p'], ('seq', ('ref', 'p'), ('ref', 'X')))),
 ]
+RULES = ('start', 'X', 'Y', 'T')
+DEEP = 16       # transparent layers ("" >> e) around the base start rule: each nests Python blocks, so the
+                # inner part (with its references to overridable rules) is compiled into a helper function
+
+
+def base_rules(deep):
+    if not deep:
+        return list(BASE)
+    e = BASE[0][1][2]
+    for _ in range(DEEP):
+        e = ('right', ('str', ''), e)
+    return [('start', ('rule', None, e))] + list(BASE[1:])
 
 
 def variants(name, lvl):
@@ -26,6 +39,9 @@ def variants(name, lvl):
     if name == 'Y':
         yield ('class', None, [('y', False, ('seq', lit, ('ref', 'X')))]), []
         yield ('rule', None, ('choice', ('seq', lit, ('ref', 'X')), ('super', 'Y'))), []
+    if name == 'T':
+        yield ('rule', ['p'], ('seq', ('ref', 'p'), ('ref', 'p'), ('ref', 'X'))), []
+        yield ('rule', ['p'], ('choice', ('seq', lit, ('supercall', 'T', [('ref', 'p')], [])), ('supercall', 'T', [('ref', 'p')], []))), []
     if name == 'start':
         yield ('rule', None, ('seq', ('ref', 'X'), ('ref', 'Y'))), []
         yield ('rule', None, ('choice', ('seq', lit, lit), ('super', 'start'))), []
@@ -39,7 +55,7 @@ IGN3 = [((), (), ()), ((SP,), (), ()), ((), (SP,), ()), ((SP,), (TL,), ()), ((),
 
 
 def level_choices(lvl):
-    per = [list(variants(n, lvl)) for n in ('start', 'X', 'Y')]
+    per = [list(variants(n, lvl)) for n in RULES]
     return list(itertools.product(*per))
 
 
@@ -50,8 +66,10 @@ def chains(tier):
     for combo in one:
         for ig in IGN2:
             for style in (('named', 'anon') if any(ig) else ('named',)):
-                for dotted in (False, True):
+                for dotted in (False, True, 'deep'):
                     if dotted and style == 'anon':
+                        continue
+                    if tier == 'quick' and dotted and sum(1 for d, _ in combo if d is not None) > 2:
                         continue
                     yield [combo], ig, style, dotted
     for c1 in one:
@@ -67,16 +85,18 @@ def chains(tier):
             for ig in igs:
                 for style in (('named', 'anon') if any(ig) and tier == 'thorough' else ('named',)):
                     yield [c1, c2], ig, style, False
+            if departs1 + departs2 <= 2:
+                yield [c1, c2], IGN3[0], 'named', 'deep'
 
 
-def build_specs(levels, ig, style):
-    specs = [Spec(list(BASE), ignores=list(ig[0]), ignore_style=style)]
+def build_specs(levels, ig, style, deep=False):
+    specs = [Spec(base_rules(deep), ignores=list(ig[0]), ignore_style=style)]
     specs[0].ignore_prefix = 'IgA'
     known = {n for n, _ in BASE}
     for i, combo in enumerate(levels, 1):
         rules = []
         ov = set()
-        for name, (d, extra) in zip(('start', 'X', 'Y'), combo):
+        for name, (d, extra) in zip(RULES, combo):
             if d is not None:
                 rules.append((name, d))
                 if d[0] == 'rule' and name in known:
@@ -101,7 +121,9 @@ def run_job(job):
 
     def bump(k, n=1):
         ctr[k] = ctr.get(k, 0) + n
-    specs = build_specs(levels, ig, style)
+    deep = dotted == 'deep'
+    dotted = dotted is True
+    specs = build_specs(levels, ig, style, deep)
     uid = e1.unique_name('c13')
     names = []
     for i, sp in enumerate(specs):
@@ -111,7 +133,7 @@ def run_job(job):
         names.append(nm)
     descs = [render.spec(sp) for sp in specs]
     kdescs = [d.replace(uid, 'U') for d in descs]
-    tag = 'chain%d%s%s' % (len(specs), '/ignore' if any(ig) else '', '/dotted' if dotted else '')
+    tag = 'chain%d%s%s%s' % (len(specs), '/ignore' if any(ig) else '', '/dotted' if dotted else '', '/deep' if deep else '')
     mods = []
     baseline = {}     # (module index) -> outcome table recorded right after the module was built
     sigs = set()
@@ -183,10 +205,10 @@ def run_job(job):
 
 def run(tier, seed):
     chk = Check('C13', tier, seed)
-    chk.rule = ('base A (start, X, class Y; start refers to X and Y) and every derived grammar choosing for each of start/X/Y among inherit, '
-                'override, override with super, override through a new rule; all 72 two-level chains x 4 ignore placements x named/anonymous '
+    chk.rule = ('base A (start, X, class Y, template T; start refers to X and Y, Y to T, T to X; optionally start nested 16 block-nesting layers deep) and every derived grammar choosing for each of start/X/Y/T among inherit, '
+                'override, override with super, override through a new rule; all 216 two-level chains x 4 ignore placements x named/anonymous '
                 'x plain/dotted module names; three-level chains (quick: at most one rule per level departs from inherit, 3 ignore placements; '
-                'thorough: all 5184 x 7 ignore placements); entries: parse of every module of the chain and every rule or class the module '
+                'thorough: all 46656 (capped, see caps_hit) x 7 ignore placements); entries: parse of every module of the chain and every rule or class the module '
                 'defines itself; 97 inputs over {a,b,c,space,~}; oracle: late-binding model; history: the outcome table of every ancestor is '
                 're-checked after every later module is built and after every module is used; non-trivial = the model run needed a restore')
     chk.assumptions = ['reference interpreter (late binding, lexical super, skip set = union over the chain)',
